@@ -10,7 +10,10 @@ C05 — two more pieces of the anchored code as executable models (core Lean onl
    context being done; the main loop that consumes `len(pools)` results or leaves through `ctx.Done()`; the deferred
    `cancel()`. `Pool.Run`'s result is an environment choice here (the pool model is `Pandora.Model.C05`); which ready
    case a `select` takes is a choice.  `EngCfg.sendSelects = false` is the variant in which a pool goroutine sends
-   its result unconditionally.
+   its result unconditionally; `EngCfg.mainSelects = false` the one in which the main loop reads the results with a
+   plain receive (it then notices a cancel only through a pool's result).  A pool goroutine that is `running` is
+   anywhere inside `pool.Run` - also inside a warm-up, a gun or a schedule factory that never looks at its context:
+   `poolRet` is an environment choice nobody is obliged to take.
 -/
 import Pandora.Model.C05Pool
 
@@ -77,9 +80,11 @@ open Pandora.Model.C05
 structure EngCfg where
   /-- the pool goroutine selects between the send and `ctx.Done()` (the code) instead of sending unconditionally -/
   sendSelects : Bool
+  /-- the main loop selects between a pool result and `ctx.Done()` (the code) instead of a plain `<-runRes` -/
+  mainSelects : Bool
   deriving DecidableEq, Repr
 
-def EngCfg.code : EngCfg := ⟨true⟩
+def EngCfg.code : EngCfg := ⟨true, true⟩
 
 /-- the goroutine `go func() { err := pool.Run(ctx); select { case runRes <- …: case <-ctx.Done(): } }()` -/
 inductive PoolG
@@ -140,10 +145,16 @@ def estep (cfg : EngCfg) (s : EState) : EChoice → EState
     | _, _ => s
   | .mainCtx =>
     match s.result with
-    | none => if s.ctxDone then ret s .ctx else s
+    | none => if cfg.mainSelects ∧ s.ctxDone then ret s .ctx else s
     | some _ => s
 
 def erun (cfg : EngCfg) (n : Nat) (cs : List EChoice) : EState := cs.foldl (estep cfg) (einit n)
+
+/-- the steps of the goroutine of `Engine.Run` itself (its main loop), as opposed to what pools, pool goroutines and
+the caller do -/
+def EChoice.isMain : EChoice → Bool
+  | .recv | .mainCtx => true
+  | _ => false
 
 def PoolG.ended : PoolG → Bool
   | .sent _ | .taken _ | .suppressed _ => true
